@@ -1118,6 +1118,9 @@ func Generate(c Chooser, o GenOptions) *Program {
 		name := g.fresh(true)
 		g.structs = append(g.structs, name)
 		emit(func(b *sb) {
+			if chance(c, 1, 3) {
+				b.line("// %s is a record.", name)
+			}
 			b.line("type %s struct {", name)
 			b.line("\tA int")
 			b.line("\tB string")
@@ -1266,6 +1269,12 @@ func Generate(c Chooser, o GenOptions) *Program {
 					res = " " + results[0]
 				} else if len(results) > 1 {
 					res = " (" + strings.Join(results, ", ") + ")"
+				}
+				if chance(c, 1, 3) {
+					b.line("// %s does something.", name)
+					if chance(c, 1, 2) {
+						b.line("// Second line of the comment.")
+					}
 				}
 				b.line("func %s(%s)%s {", name, strings.Join(ps, ", "), res)
 				b.ind++
